@@ -346,8 +346,11 @@ def execute(plan: dict) -> dict:
                 mv = int(np.asarray(infos[kid].position_moved)[c, t])
                 if mv == 0 and b in ("beta", "scale", "z"):
                     for k in list(watch) + ["__log_prob"]:
-                        if not eq(before[k][c, t], after[k][c, t]):
-                            V.add("rejected-unchanged", plan["kern"].get(b, "gibbs"), f"chain {c} iteration {t}: kernel {kid} reports a rejection but {k} changed")
+                        # parameters bit for bit; derived quantities and the log-probability may be
+                        # recomputed by the kernel's write-back in another XLA fusion context (ulp level)
+                        same = eq(before[k][c, t], after[k][c, t]) if k in params else np.allclose(before[k][c, t], after[k][c, t], rtol=2e-6, atol=1e-6)
+                        if not same:
+                            V.add("rejected-unchanged", plan["kern"].get(b, "gibbs"), f"chain {c} iteration {t}: kernel {kid} reports a rejection but {k} changed from {np.asarray(before[k][c, t]).tolist()} to {np.asarray(after[k][c, t]).tolist()}")
                     counters["probe.rejections"] = counters.get("probe.rejections", 0) + 1
                 elif mv == 1:
                     counters["probe.acceptances"] = counters.get("probe.acceptances", 0) + 1
